@@ -30,17 +30,39 @@ type Ev struct {
 // stored, so images share them freely.
 type Image struct {
 	Blocks [][]byte
+	// per-block hashes, computed on demand and carried along by Clone (blocks are
+	// immutable, so a hash stays valid until the block is replaced through set)
+	bh []uint64
+	bk []bool
 }
 
-func NewImage(size uint64) *Image { return &Image{Blocks: make([][]byte, size)} }
+func NewImage(size uint64) *Image {
+	return &Image{Blocks: make([][]byte, size), bh: make([]uint64, size), bk: make([]bool, size)}
+}
 
 //go:norace
 func (im *Image) Clone() *Image {
-	n := &Image{Blocks: make([][]byte, len(im.Blocks))}
+	n := &Image{Blocks: make([][]byte, len(im.Blocks)), bh: make([]uint64, len(im.Blocks)), bk: make([]bool, len(im.Blocks))}
 	for i := range im.Blocks {
 		n.Blocks[i] = im.Blocks[i]
 	}
+	if len(im.bh) == len(im.Blocks) {
+		for i := range im.bh {
+			n.bh[i] = im.bh[i]
+			n.bk[i] = im.bk[i]
+		}
+	}
 	return n
+}
+
+// set replaces one block; h is hashBlock(blk, data).
+//
+//go:norace
+func (im *Image) set(blk uint64, data []byte, h uint64) {
+	im.Blocks[blk] = data
+	if len(im.bk) == len(im.Blocks) {
+		im.bh[blk], im.bk[blk] = h, true
+	}
 }
 
 //go:norace
@@ -68,9 +90,18 @@ func hashBlock(blk uint64, b []byte) uint64 {
 //go:norace
 func (im *Image) Hash() uint64 {
 	var x uint64
+	cache := len(im.bk) == len(im.Blocks)
 	for i, b := range im.Blocks {
 		if b != nil {
-			x ^= hashBlock(uint64(i), b)
+			if cache && im.bk[i] {
+				x ^= im.bh[i]
+				continue
+			}
+			h := hashBlock(uint64(i), b)
+			if cache {
+				im.bh[i], im.bk[i] = h, true
+			}
+			x ^= h
 		}
 	}
 	return x
@@ -177,7 +208,7 @@ func (d *Disk) write(a uint64, v []byte) {
 		c[i] = v[i]
 	}
 	h := hashBlock(a, c)
-	d.img.Blocks[a] = c
+	d.img.set(a, c, h)
 	if !d.NoTrace {
 		d.Trace = append(d.Trace, Ev{Kind: EvWrite, Blk: a, Data: c, Hash: h, Step: simrt.Steps()})
 	}
@@ -231,7 +262,9 @@ type Cursor struct {
 }
 
 func NewCursor(base *Image, tr []Ev) *Cursor {
-	return &Cursor{tr: tr, durable: base.Clone()}
+	c := &Cursor{tr: tr, durable: base.Clone()}
+	c.durable.Hash() // warm the per-block hash cache that the crash images inherit
+	return c
 }
 
 // Pos is the number of events consumed.
@@ -245,7 +278,7 @@ func (c *Cursor) Advance() {
 		c.open = append(c.open, c.pos)
 	case EvBarrier:
 		for _, i := range c.open {
-			c.durable.Blocks[c.tr[i].Blk] = c.tr[i].Data
+			c.durable.set(c.tr[i].Blk, c.tr[i].Data, c.tr[i].Hash)
 		}
 		c.open = c.open[:0]
 	}
@@ -260,7 +293,7 @@ func (c *Cursor) OpenLen() int { return len(c.open) }
 func (c *Cursor) ImageAll() *Image {
 	im := c.durable.Clone()
 	for _, i := range c.open {
-		im.Blocks[c.tr[i].Blk] = c.tr[i].Data
+		im.set(c.tr[i].Blk, c.tr[i].Data, c.tr[i].Hash)
 	}
 	return im
 }
@@ -272,7 +305,7 @@ func (c *Cursor) ImageMask(keep func(k int) bool) *Image {
 	im := c.durable.Clone()
 	for k, i := range c.open {
 		if keep(k) {
-			im.Blocks[c.tr[i].Blk] = c.tr[i].Data
+			im.set(c.tr[i].Blk, c.tr[i].Data, c.tr[i].Hash)
 		}
 	}
 	return im
